@@ -50,6 +50,8 @@ theorem gstep_everNe {c : Cfg} {σ : RunSt} {g : Ghost} (h : EverNe g) (op : Op)
   | mempoolDrain _ => exact h
   | produce => simp only [gstep]; split <;> exact h
   | produceFail => simp only [gstep]; split <;> exact h
+  | produceSame => simp only [gstep]; split <;> exact h
+  | reapPutFails => exact h
   | restart => intro b hb; rw [show (gstep c σ g .restart).ever = g.ever from cut_ever _ _ _] at hb; exact h b hb
   | crash k => intro b hb; rw [show (gstep c σ g (.crash k)).ever = g.ever from cut_ever _ _ _] at hb; exact h b hb
   | reap =>
@@ -91,14 +93,14 @@ theorem execFail_pending {c : Cfg} {σ : RunSt} {g : Ghost} (hc : CfgOK c) (h : 
     | true => rfl
     | false =>
       exfalso
-      rw [produce_noask c σ.n .fail ha] at htook
+      rw [produce_noask c σ.n .fail .real ha] at htook
       exact qdel_ne_st htook
   have hnone : σ.n.prod.store.getBlock (σ.n.prod.store.height + 1) = none := by
     unfold asksSequencer at hask
     simp only [Bool.and_eq_true, Bool.not_eq_true', Option.isNone_iff_eq_none] at hask
     exact hask.2
   obtain ⟨P', sws, pre, q', T, e1, e2, f1, f2, f3, _, _, _, hcase, _, f8, _⟩ :=
-    produce_cases hc.signer h.live h.synced h.wm h.first h.tb .fail
+    produce_cases hc.signer h.live h.synced h.wm h.first h.tb .fail .real (by decide)
   have hP : (produce c σ.n .fail).1.prod = P' := by rw [e1]
   rcases hcase with ⟨rfl, _, _⟩ | ⟨b', rest', rfl, hm, _, rfl, h2⟩
   · exfalso
@@ -109,7 +111,7 @@ theorem execFail_pending {c : Cfg} {σ : RunSt} {g : Ghost} (hc : CfgOK c) (h : 
     obtain ⟨rfl, _⟩ := htook
     have hfr : P'.store.height = σ.n.prod.store.height ∧
         ∀ k, k ≤ σ.n.prod.store.height → P'.store.getBlock k = σ.n.prod.store.getBlock k := by
-      rw [← hP, produce_ask c σ.n .fail hask]
+      rw [← hP, produce_ask c σ.n .fail .real hask]
       exact publish_fail_frame _
     have hchain : chainTxs P'.store = chainTxs σ.n.prod.store := by
       unfold chainTxs; rw [hfr.1]; exact chainUpTo_congr hfr.2
@@ -137,7 +139,7 @@ theorem execFail_retry {c : Cfg} {σ : RunSt} {g : Ghost} (hc : CfgOK c) (h : FI
     rw [← hpend]; unfold pendingTxs blockTxs; rw [hpb]
   have hask : asksSequencer c σ.n = false := by
     unfold asksSequencer; rw [hpb]; simp
-  rw [produce_noask c σ.n ex hask]
+  rw [produce_noask c σ.n ex .real hask]
   refine ⟨rfl, ?_⟩
   rcases (publish_tx hi hc.signer [] _ (Nat.le_refl _) ex).1 pb hpb .absent with ⟨a1, _⟩ | ⟨hex, fb, st, b1, _, _, b4, b5⟩
   · exact Or.inl a1
@@ -169,5 +171,27 @@ theorem execFail_retry {c : Cfg} {σ : RunSt} {g : Ghost} (hc : CfgOK c) (h : FI
       rw [hh]
       simp only [commit3, Store.applyAll, List.foldl_cons, List.foldl_nil, getBlock_setHeight, getBlock_updateState]
       rw [getBlock_saveBlock_other _ _ _ _ (by omega), hi.above _ (by omega)]
+
+/-- **a production step whose sequencing-layer clock did not step backwards keeps every queued transaction**: afterwards
+it is in the chain, in the block waiting at `height + 1`, or still queued -/
+theorem produce_keeps_queued {c : Cfg} {σ : RunSt} {g : Ghost} (hc : CfgOK c) (h : FInv c σ g) (ex : ExecResp) (clk : Clock)
+    (hclk : clk ≠ .back) {t : Bytes} (ht : t ∈ σ.n.q.mem.flatten) :
+    t ∈ chainTxs (produce c σ.n ex clk).1.prod.store ++ pendingTxs (produce c σ.n ex clk).1.prod.store ++
+        (produce c σ.n ex clk).1.q.mem.flatten := by
+  obtain ⟨P', sws, pre, q', T, e1, _, f1, f2, f3, _, _, _, hcase, _, f8, _⟩ :=
+    produce_cases hc.signer h.live h.synced h.wm h.first h.tb ex clk hclk
+  rw [e1]
+  show t ∈ chainTxs P'.store ++ pendingTxs P'.store ++ q'.mem.flatten
+  rcases hcase with ⟨_, rfl, _⟩ | ⟨b, rest, _, hm, rfl, rfl, h2⟩
+  · exact List.mem_append_right _ ht
+  · rw [hm] at ht
+    simp only [List.flatten_cons, List.mem_append] at ht
+    rcases ht with ht | ht
+    · refine List.mem_append_left _ ?_
+      have hall := f8 sws.length h2
+      rw [List.take_length, ← f1, node_durAll f2.toInv f3] at hall
+      rw [hall]
+      exact List.mem_append_right _ ht
+    · exact List.mem_append_right _ ht
 
 end Flow
